@@ -71,6 +71,8 @@ type world struct {
 	envRows  map[int]string
 	envOrder []int
 	queries  int
+	// getcfheaders broadcasts seen: "(start height, stop hash)"
+	reqs []string
 }
 
 func newWorld(ch *chainT, in *interner, peers []*peerSpec) *world {
@@ -206,6 +208,12 @@ func (w *world) hdrAnswers(p *peerSpec, q *wire.MsgGetCFHeaders) []wire.Message 
 	if !ok || start > stop {
 		return nil
 	}
+	// A conforming peer (btcd's OnGetCFHeaders) does not answer a request
+	// that spans more than wire.MaxCFHeadersPerMsg headers, and nobody can:
+	// a cfheaders message cannot hold more.
+	if stop-start+1 > wire.MaxCFHeadersPerMsg {
+		return nil
+	}
 	good := w.cfheaders(p, start, stop, q.StopHash)
 	switch p.HdrMode {
 	case "silent":
@@ -300,6 +308,7 @@ func (w *world) respond(q wire.Message) []neutrino.VerifC03PeerMsgs {
 	switch m := q.(type) {
 	case *wire.MsgGetCFHeaders:
 		w.queries++
+		w.reqs = append(w.reqs, fmt.Sprintf("(%d, %d)", m.StartHeight, w.in.tok(m.StopHash)))
 		for _, p := range w.peers {
 			msgs := w.hdrAnswers(p, m)
 			for _, x := range msgs {
